@@ -35,6 +35,22 @@ type e1 struct {
 	Deep struct {
 		In e1in `config:"in"`
 	} `config:"deep"`
+	U  e1Unp   `config:"u"`
+	UL []e1Unp `config:"ul"`
+}
+
+// e1Unp decodes its object form itself (a non-Config Unpacker): the errors of the nested calls know
+// only the path below the value they were given.
+type e1Unp struct {
+	in e1in
+}
+
+func (u *e1Unp) Unpack(v interface{}) error {
+	c, err := ucfg.NewFrom(v)
+	if err != nil {
+		return err
+	}
+	return c.Unpack(&u.in)
 }
 
 func validIn() map[string]interface{} {
@@ -60,6 +76,7 @@ func H_C14_faults() {
 	cfg := map[string]interface{}{
 		"a": 1, "s": "s", "n": validIn(), "l": []interface{}{validIn(), validIn()}, "m": map[string]interface{}{"k": validIn()},
 		"p": validIn(), "q": 1, "arr": []interface{}{1, 2}, "r": "plain", "d": "1s", "deep": map[string]interface{}{"in": validIn()},
+		"u": validIn(), "ul": []interface{}{validIn(), validIn()},
 	}
 	bad := func(kind int, field string) (interface{}, string) {
 		switch kind {
@@ -76,7 +93,7 @@ func H_C14_faults() {
 		}
 	}
 	kind := verif.Choice("kind", nFaultKinds)
-	pos := verif.Choice("position", 12)
+	pos := verif.Choice("position", 14)
 	path := ""
 	switch pos {
 	case 0: // top-level scalar
@@ -138,11 +155,23 @@ func H_C14_faults() {
 	case 11: // list element of wrong type
 		cfg["l"] = []interface{}{validIn(), 5}
 		path = "l.1"
+	case 12: // inside the object form of a type with its own Unpack(interface{})
+		v, f := bad(kind, "")
+		in := validIn()
+		in[f] = v
+		cfg["u"] = in
+		path = "u"
+	case 13: // the same inside a list
+		v, f := bad(kind, "")
+		in := validIn()
+		in[f] = v
+		cfg["ul"] = []interface{}{validIn(), in}
+		path = "ul.1"
 	}
 	// how the configuration came to be: one nested input, the same settings spelled with dotted keys
 	// (objects and lists exist only as intermediate nodes of the keys), or a history of two merges in
 	// which the faulty list element is appended to a non-empty list
-	build := verif.Choice("build", 4)
+	build := verif.Choice("build", 5)
 	var c *ucfg.Config
 	var err error
 	switch build {
@@ -166,6 +195,19 @@ func H_C14_faults() {
 			path = "l.2." + path[len("l.1."):]
 		} else if pos == 11 {
 			path = "l.2"
+		}
+	case 4:
+		// the faulty element is there first; a later merge PREPENDS another element, moving it up
+		c, err = ucfg.NewFrom(cfg, opts...)
+		if err == nil {
+			err = c.Merge(map[string]interface{}{"l": []interface{}{validIn()}, "ul": []interface{}{validIn()}}, append(append([]ucfg.Option{}, opts...), ucfg.PrependValues)...)
+		}
+		if pos == 2 {
+			path = "l.2." + path[len("l.1."):]
+		} else if pos == 11 {
+			path = "l.2"
+		} else if pos == 13 {
+			path = "ul.2"
 		}
 	}
 	verif.Assert(err == nil, "C14/config accepted")
